@@ -72,6 +72,40 @@ def model_check(ctx, r):
         else:
             r.notes.append("Apalache %s inconclusive: %s" % (label, out.strip().splitlines()[-1][:200] if out.strip() else "no output"))
     shutil.rmtree(os.path.join(wd, "apa"), ignore_errors=True)
+    # the same inductive invariant as a machine-checked PROOF (TLAPS): spec/tlaps/AlgLoopProof.tla, for every MaxIters \subseteq Nat.
+    # Negative control: with the strengthening conjunct "an update is in flight only below the budget" removed the proof must fail.
+    shutil.copy(os.path.join(tlc.SPEC_DIR, "tlaps", "AlgLoopProof.tla"), wd)
+    with open(os.path.join(wd, "AlgLoopProof.tla")) as f:
+        proof = f.read()
+    weak = proof.replace("MODULE AlgLoopProof", "MODULE AlgLoopProofWeak").replace('  /\\ (run = "running" /\\ upd = "running") => iter < max_iter\n', "")
+    with open(os.path.join(wd, "AlgLoopProofWeak.tla"), "w") as f:
+        f.write(weak)
+    outcomes = {}
+    for mod in ("AlgLoopProof", "AlgLoopProofWeak"):
+        try:
+            pt = subprocess.run(["tlapm", "-I", wd, "--cleanfp", "--stretch", "3", mod + ".tla"], cwd=wd, stdout=subprocess.PIPE, stderr=subprocess.STDOUT, text=True, timeout=900)
+            outcomes[mod] = pt.stdout
+        except (OSError, subprocess.TimeoutExpired) as e:
+            outcomes[mod] = None
+            r.notes.append("TLAPS not run on %s (%s); the Apalache / TLC results stand" % (mod, type(e).__name__))
+    shutil.rmtree(os.path.join(wd, ".tlacache"), ignore_errors=True)
+    po = outcomes.get("AlgLoopProof")
+    if po is not None:
+        import re as _re
+
+        m_ = _re.search(r"All (\d+) obligations proved", po)
+        if m_:
+            r.notes.append("TLAPS: spec/tlaps/AlgLoopProof.tla - all %s obligations proved (Spec => []IndInvS for every budget)" % m_.group(1))
+            r.cmds.append("tlapm -I spec spec/tlaps/AlgLoopProof.tla")
+            wo = outcomes.get("AlgLoopProofWeak")
+            if wo is not None and _re.search(r"All \d+ obligations proved", wo) and weak != proof.replace("MODULE AlgLoopProof", "MODULE AlgLoopProofWeak"):
+                r.machinery_error = "TLAPS negative control lost: the proof goes through without the strengthening conjunct"
+                return None
+            if wo is not None:
+                r.notes.append("TLAPS negative control: without the strengthening conjunct the induction step is not proved")
+        else:
+            r.machinery_error = "TLAPS: the proof of IndInvS no longer goes through (the design or the invariant changed): %s" % (po.strip().splitlines()[-1][:300] if po.strip() else "no output")
+            return None
     # second run for the labelled graph (coverage and dot dump do not combine well)
     cmd = ["java", "-XX:+UseParallelGC", "-DTLA-Library=" + tlc.SPEC_DIR, "-cp", tlc.JARS, "tlc2.TLC", "-workers", "1", "-metadir", os.path.join(wd, "meta2"),
            "-noGenerateSpecTE", "-deadlock", "-dump", "dot,actionlabels", dot, "-config", os.path.join(wd, "MC_AlgLoop.cfg"), os.path.join(wd, "MC_AlgLoop.tla")]
